@@ -1714,6 +1714,7 @@ class Circuit(Unitary, StateVectorMap, Collection[Operation]):
         if len(self[point].location.intersection(op.location)) == 0:
             raise ValueError("Point's qudit is not in operation's location.")
 
+        point = self.normalize_point(point)
         old_op = self._circuit[point[0]][point[1]]
         if old_op is not None and set(old_op.location) == set(op.location):
             if old_op.location[0] != op.location[0]:
@@ -1777,6 +1778,7 @@ class Circuit(Unitary, StateVectorMap, Collection[Operation]):
         if len(points) != len(ops):
             raise ValueError('Points and Ops have different lengths.')
 
+        points = [self.normalize_point(point) for point in points]
         points_and_ops = sorted(zip(points, ops), key=lambda x: x[0][0])
         num_cycles = self.num_cycles
 
@@ -1803,6 +1805,7 @@ class Circuit(Unitary, StateVectorMap, Collection[Operation]):
         move: bool = False,
     ) -> None:
         """Replace the operation at 'point' with `circuit`."""
+        point = self.normalize_point(point)
         op = self.pop(point)
 
         if circuit.num_qudits != op.num_qudits:
